@@ -71,7 +71,7 @@ def run(ctx):
         if rc != 0 and not broken:
             broken.append("RepoLock.v failed: " + out[-800:])
         if broken:
-            ctx.proof_broken = "obligations on the lock facts generated from %s fail:\n%s" % (ctx.repo, "\n".join(broken))
+            ctx.proof_broken = "obligations on the lock facts generated from %s fail: %s" % (ctx.repo, " | ".join(broken))
         else:
             closed = out.count("Closed under the global context")
             if closed != len(OBLIGATIONS):
@@ -111,7 +111,7 @@ def run(ctx):
         elif not okrun and not failed and not any("does not build" in c for c in ctx.corr_broken):
             ctx.corr_broken.append("race harness for ./%s failed: %s" % (pkg, log[-1500:]))
 
-    n = 3 if not thorough else 12
+    n = 3 if not thorough else 40
     harness("controller", n, ctx.seed, "ctl")
     harness("speaker", n, ctx.seed, "spk")
 
@@ -119,7 +119,7 @@ def run(ctx):
         for k in ("controller_events", "controller_fetches_consumed", "controller_final_assigned_services",
                   "speaker_events", "speaker_fetches_consumed", "speaker_final_l2_or_bgp_announcements"):
             if st.get(k, 0) == 0 and not ctx.corr_broken:
-                raise Exception("race harness degenerate: %s = 0 (%r)" % (k, st))
+                raise vlib.Broken("race harness degenerate: %s = 0 (%r)" % (k, st))
 
     def search():
         for k in range(3):
@@ -145,7 +145,7 @@ def run(ctx):
         "the interleaving semantics of Model/Lock.v (sequentially consistent, sync.RWMutex as exclusive/shared holds); the Go memory model itself is not modelled",
         "unguarded state reached only under the Listener mutex (allocator maps, speaker controller maps, ndpResponder.solicitedNodeGroups) is assumed to be reached only from "
         "the registered handlers: the translator checks the registration sites in internal/k8s/k8s.go, not all callers",
-        "race detector schedules are samples (quick: 3+1 rounds per program, thorough: 12+1)",
+        "race detector schedules are samples (quick: 3+1 rounds per program, thorough: 40+1)",
     ]
     ctx.assumptions += ["handlers are deterministic functions of (state, event) on the generated events (one auto-assignable pool; Allocate ranges over a map of candidate pools otherwise) — "
                         "needed to compare the concurrent final state with the serial replay address by address"]
